@@ -374,6 +374,7 @@ type retryCase struct {
 	Unary       []bool         `json:"unary"`        // unary mode: i-th attempt succeeds?
 	CancelAfter int            `json:"cancel_after"` // stream mode: cancel the caller's context after this many messages (-1: never)
 	CancelBlock bool           `json:"cancel_blocked"` // stream mode: cancel from another goroutine once Recv is blocked on a hanging stream
+	Wrap        bool           `json:"wrap"`           // a ClientStream decorator below the retry interceptor reports the caller's cancellation as a WRAPPED context.Canceled and opens streams on a context the cancellation does not reach
 	Req         string         `json:"req"`
 	Allow       []string       `json:"allow"`    // interceptor.RPCNeedRetry as found in /repo
 	ProdMax     map[string]int `json:"prod_max"` // retry budgets configured in /repo/client (read from source)
@@ -451,14 +452,57 @@ func (s *retryServer) GetPod(_ context.Context, o *pb.GetPodOptions) (*pb.Pod, e
 	return nil, status.Error(codes.Unavailable, "scripted failure")
 }
 
+// wrapStream / wrapCancelInterceptor: a transport-side decorator installed BELOW the retry interceptor.
+// (a) after the caller cancelled, RecvMsg errors are reported the way layered transports do: the
+// context error wrapped with some detail (errors.Is(err, context.Canceled) holds, err != context.Canceled);
+// (b) streams are opened on a context detached from the caller's cancellation (an already opened
+// stream is still torn down when the caller cancels), so that a stream re-opened AFTER the
+// cancellation would reach the server handler and be counted there.
+type wrapStream struct {
+	grpc.ClientStream
+	ctx    context.Context
+	cancel context.CancelFunc
+}
+
+func (w *wrapStream) RecvMsg(m any) error {
+	err := w.ClientStream.RecvMsg(m)
+	if err != nil && w.ctx.Err() != nil {
+		return fmt.Errorf("stream recv aborted: %w", w.ctx.Err())
+	}
+	return err
+}
+
+func wrapCancelInterceptor(ctx context.Context, desc *grpc.StreamDesc, cc *grpc.ClientConn, method string, streamer grpc.Streamer, opts ...grpc.CallOption) (grpc.ClientStream, error) {
+	dctx, dcancel := context.WithCancel(context.WithoutCancel(ctx))
+	if ctx.Err() == nil {
+		go func() {
+			select {
+			case <-ctx.Done():
+				dcancel()
+			case <-dctx.Done():
+			}
+		}()
+	}
+	cs, err := streamer(dctx, desc, cc, method, opts...)
+	if err != nil {
+		dcancel()
+		return nil, err
+	}
+	return &wrapStream{ClientStream: cs, ctx: ctx, cancel: dcancel}, nil
+}
+
 func runRetry(k *retryCase) {
 	impl := map[string]any{}
 	k.Impl = impl
 	kind, msg := hx.Guard(60*time.Second, func() {
 		srv := &retryServer{script: k.Script, unary: k.Unary, hang: make(chan struct{}, 1)}
+		streamChain := []grpc.StreamClientInterceptor{interceptor.NewStreamRetry(interceptor.RetryOptions{Max: k.Max})}
+		if k.Wrap {
+			streamChain = append(streamChain, wrapCancelInterceptor)
+		}
 		ep, err := newEndpoint(srv, nil, []grpc.DialOption{
 			grpc.WithUnaryInterceptor(interceptor.NewUnaryRetry(interceptor.RetryOptions{Max: k.Max})),
-			grpc.WithStreamInterceptor(interceptor.NewStreamRetry(interceptor.RetryOptions{Max: k.Max})),
+			grpc.WithChainStreamInterceptor(streamChain...),
 		})
 		if err != nil {
 			impl["err"] = "dial-error"
@@ -491,6 +535,9 @@ func runRetry(k *retryCase) {
 				impl["seen_at_cancel"] = n
 				cmu.Unlock()
 				cancel()
+				if k.Wrap {
+					time.AfterFunc(3*time.Second, func() { ep.conn.Close() })
+				}
 			}()
 		}
 		if k.Mode == "unary" {
@@ -545,6 +592,10 @@ func runRetry(k *retryCase) {
 					impl["seen_at_cancel"] = len(srv.seen)
 					srv.mu.Unlock()
 					cancel()
+					if k.Wrap { // a (wrongly) re-opened stream lives on a detached context: make sure the run ends
+						tm := time.AfterFunc(3*time.Second, func() { ep.conn.Close() })
+						defer tm.Stop()
+					}
 					// one more Recv after the cancellation: it must fail without reaching the server
 					_, last = recv()
 					if last == nil { // a message already in flight may still be delivered; drain
@@ -584,7 +635,10 @@ func runRetry(k *retryCase) {
 // prodBudgets reads the retry budgets /repo's own clients configure (a tiny fact extractor).
 func prodBudgets() map[string]int {
 	res := map[string]int{}
-	root := os.Getenv("VERIF_REPO")
+	root := os.Getenv("VERIF_REPO_DIR")
+	if root == "" {
+		root = os.Getenv("VERIF_REPO")
+	}
 	if root == "" {
 		root = "/repo"
 	}
@@ -653,6 +707,9 @@ func testGenRetry(t *testing.T) {
 		add(&retryCase{Mode: "stream", Method: "WorkloadStatusStream", Max: 2, Script: []streamScript{S(0, "hang")}, CancelAfter: -1, CancelBlock: true})
 		add(&retryCase{Mode: "stream", Method: "WorkloadStatusStream", Max: 2, Script: []streamScript{S(1, "eof"), S(0, "err"), S(0, "hang")}, CancelAfter: -1, CancelBlock: true})
 		add(&retryCase{Mode: "stream", Method: "NodeStatusStream", Max: 2, Script: []streamScript{S(2, "hang")}, CancelAfter: -1, CancelBlock: true})
+		add(&retryCase{Mode: "stream", Method: "WatchServiceStatus", Max: 3, Script: []streamScript{S(1, "hang"), S(1, "eof")}, CancelAfter: 1, Wrap: true})
+		add(&retryCase{Mode: "stream", Method: "WorkloadStatusStream", Max: 0, Script: []streamScript{S(2, "err"), S(1, "hang"), S(2, "hang")}, CancelAfter: -1, CancelBlock: true, Wrap: true})
+		add(&retryCase{Mode: "stream", Method: "GetPodResource", Max: 2, Script: []streamScript{S(2, "hang"), S(1, "eof")}, CancelAfter: 1, Wrap: true})
 		add(&retryCase{Mode: "stream", Method: "GetPodResource", Max: 3, Script: []streamScript{S(2, "err"), S(2, "eof")}, CancelAfter: -1})
 		add(&retryCase{Mode: "stream", Method: "NodeStatusStream", Max: 3, Script: []streamScript{S(0, "eof"), S(2, "eof")}, CancelAfter: -1})
 		add(&retryCase{Mode: "unary", Method: "GetPod", Max: 0, Unary: []bool{false, true}})
@@ -674,6 +731,11 @@ func testGenRetry(t *testing.T) {
 					}
 					k.CancelAfter = r.Intn(tot + 1)
 					k.Script[len(k.Script)-1].End = "hang"
+				}
+				if (k.CancelBlock || k.CancelAfter >= 0) && r.Chance(40) {
+					k.Wrap = true
+					// something the server could still play if the cancelled watch were (wrongly) re-opened
+					k.Script = append(k.Script, streamScript{K: hx.Pick(r, 1, 2), End: "eof"})
 				}
 			case c < 8:
 				k.Mode, k.Method = "stream", hx.Pick(r, "GetPodResource", "NodeStatusStream")
